@@ -4,8 +4,8 @@ package bitcoin
 
 // Verification hook (build tag verif): re-exports existing identifiers only.
 
-// VerifUnsignedTransaction returns the transaction currently held by the
+// VerifC26UnsignedTransaction returns the transaction currently held by the
 // builder (inputs without signature data unless AddSignatures was called).
-func (tb *TransactionBuilder) VerifUnsignedTransaction() *Transaction {
+func (tb *TransactionBuilder) VerifC26UnsignedTransaction() *Transaction {
 	return tb.internal.toTransaction()
 }
